@@ -173,6 +173,11 @@ def make_specs():
         s2 = c13.WatchSpec(WW, n)
         s2.prop = PROP
         out.append(s2)
+    # what reaches queue_events is filter-independent too: the buffer between the kernel and the emitter pairs and holds back
+    # native records by their kind alone (C08's contract of InotifyBuffer.run) - a pairing delay that depended on the filter
+    # would turn a rename into a deletion + creation for the filtered watch only
+    from specs import c08
+    out.append(c08.BufferRun(c08.GWorld(), PROP))
     return out
 
 
